@@ -174,11 +174,23 @@ package arbitrator
 //@   requires unavailablePods != nil && unavailablePods != migratingPods
 //@   modifies contents(unavailablePods)
 
-// The unavailable set is a fresh, non-nil set; nothing that existed is written.
+// A replica is unavailable, in the code's sense, unless it is BOTH active (not Succeeded / Failed and not being deleted:
+// kubecontroller.IsPodActive) AND ready (k8spodutil.IsPodReady); both are uninterpreted observers of the pod object.
+//@ spec func unavail(p *corev1.Pod) bool = !(kubecontroller.IsPodActive(p) && k8spodutil.IsPodReady(p))
+// k is the namespace/name key of p (the spec language has no struct literals).
+//@ spec func keyOf(k types.NamespacedName, p *corev1.Pod) bool = k.Namespace == p.ObjectMeta.Namespace && k.Name == p.ObjectMeta.Name
+
+// getUnavailablePods: a fresh, non-nil set (nothing that existed is written) that contains the key of EVERY listed pod that is
+// unavailable (#in) and NOTHING but keys of listed unavailable pods (#only).
 //@ func (*filter).getUnavailablePods [C16]
 //@   ensures #fresh: result != nil && fresh(result)
+//@   ensures #in: forall i int, k types.NamespacedName :: {pods[i], has(result, k)} 0 <= i && i < len(pods) && keyOf(k, pods[i]) && unavail(pods[i]) ==> has(result, k)
+//@   ensures #only: forall k types.NamespacedName :: {has(result, k)} has(result, k) ==> (exists i int :: 0 <= i && i < len(pods) && keyOf(k, pods[i]) && unavail(pods[i]))
 //@   modifies nothing
 //@   loop 1 invariant unavailablePods != nil && fresh(unavailablePods)
+//@   loop 1 invariant #idx: 0 <= $i && $i <= len(pods)
+//@   loop 1 invariant #in: forall i int, k types.NamespacedName :: {pods[i], has(unavailablePods, k)} 0 <= i && i < $i && keyOf(k, pods[i]) && unavail(pods[i]) ==> has(unavailablePods, k)
+//@   loop 1 invariant #only: forall k types.NamespacedName :: {has(unavailablePods, k)} has(unavailablePods, k) ==> (exists i int :: 0 <= i && i < $i && keyOf(k, pods[i]) && unavail(pods[i]))
 
 // Both gates skipped or a pod without controller: passes. A controller-finder error refuses (without failing the job: the
 // check is part of the retryable filter). Otherwise the migrating pods of the workload are collected from zero over the
